@@ -141,6 +141,10 @@ pub fn gen_c09(rng: &mut Rng, tier: Tier) -> Result<Value, serde_json::Error> {
         1 => ExpSpec::Null,
         2 => ExpSpec::Str(rng.pick(&["tomorrow", "1883000000", "", "NaN"]).to_string()),
         3 => ExpSpec::Neg(-(1 + rng.below(1 << 40) as i64)),
+        4 if rng.bool() => {
+            // "never expires" the way issuers write it: 9999-12-31, 2^32, 2^53, 10^12, i64::MAX …
+            ExpSpec::Abs(*rng.pick(&[253_402_300_799i64, 4_294_967_296, 9_007_199_254_740_992, 1_000_000_000_000, 32_503_680_000, i64::MAX, 99_999_999_999, 100_000_000_001]))
+        }
         4 => {
             if rng.bool() {
                 ExpSpec::Abs(4_102_444_800 + rng.range(-Y, 0)) // up to 2100-01-01
@@ -442,7 +446,9 @@ pub fn execute(scn_v: &Value) -> RunReport {
                     rep.count("oracle.c09.in_window");
                     let e = exp_num.unwrap_or(0.0) as i64;
                     let lo = nbf_num.unwrap_or(i64::MIN / 4);
-                    let tref_local = if lo > i64::MIN / 8 { (lo + 3600).min(e - 3600).max(lo + BAND) } else { e - 3600 };
+                    let tref_local = if lo > i64::MIN / 8 { (lo + 3600).min(e.saturating_sub(3600)).max(lo + BAND) } else { e.saturating_sub(3600) };
+                    // the reference instant stays inside the property's bound (exp may be 9999-12-31 or i64::MAX)
+                    let tref_local = tref_local.min(TV_MAX - 3600).max(TV_MIN.min(tv));
                     let saved_ns = seams::clock_s();
                     // put the verifier's local clock at tref (global = tref - skew)
                     seams::set_clock_s(tref_local - v_skew);
